@@ -138,6 +138,18 @@ impl Client {
             std::thread::sleep(Duration::from_millis(8));
         }
     }
+    /// like `wait_for`, but gives up 400 ms after a panic message has appeared on the server's stderr
+    fn wait_for_or_panic<F: Fn(&[(u64, json::JsonValue)]) -> bool>(&self, pred: F, timeout_ms: u64) -> bool {
+        let t = Instant::now();
+        let mut panicked_at: Option<Instant> = None;
+        loop {
+            if pred(&self.msgs.lock().unwrap()) { return true; }
+            if t.elapsed().as_millis() as u64 >= timeout_ms { return false; }
+            if panicked_at.is_none() && self.stderr.lock().unwrap().contains("panicked at") { panicked_at = Some(Instant::now()); }
+            if let Some(p) = panicked_at { if p.elapsed() > Duration::from_millis(400) { return pred(&self.msgs.lock().unwrap()); } }
+            std::thread::sleep(Duration::from_millis(8));
+        }
+    }
     fn has_response(&self, id: i64, timeout_ms: u64) -> bool {
         self.wait_for(|ms| ms.iter().any(|(_, m)| m["id"].as_i64() == Some(id) && m["method"].is_null()), timeout_ms)
     }
@@ -222,6 +234,14 @@ fn send_request(c: &mut Client, kind: usize, uri: &str, line: usize, ch: usize) 
         3 => c.request("textDocument/semanticTokens/full", json::object! { "textDocument": { "uri": uri } }),
         _ => c.request("textDocument/definition", json::object! { "textDocument": { "uri": uri }, "position": pos }),
     }
+}
+
+/// `panic:<file relative to the crate>` from the location of an in-process panic (whatever directory the
+/// working tree is in)
+fn inproc_panic_sig(p: &str) -> String {
+    let site = panic_site(p);
+    let file = site.split(':').next().unwrap_or("?");
+    format!("panic:{}", match file.find("src/") { Some(k) => &file[k..], None => file })
 }
 
 fn panic_sig(stderr: &str) -> Option<String> {
@@ -318,7 +338,7 @@ fn cfg_is_live(json_text: &str) -> bool {
 }
 
 /// statements whose diagnostics depend on the settings
-const AS_SENS: [&str; 9] = ["PRINT UNDEF1", "ARR(3) = 1", "print \"lower\"", "GOTO 31999", "PRINT \"UNTERM", "CALL 768,A,B", "GREEN = 1: GREAT = 2",
+const AS_SENS: [&str; 12] = ["ONERR GOTO 100", "ONERR GOTO 100: REM TRAP ERRORS", "ONERR GOTO 100: PRINT 1: REM AND MORE", "PRINT UNDEF1", "ARR(3) = 1", "print \"lower\"", "GOTO 31999", "PRINT \"UNTERM", "CALL 768,A,B", "GREEN = 1: GREAT = 2",
     "A$ = \"X\": Print A$", "GOSUB 31998: Q(1,2) = Q2"];
 const IB_SENS: [&str; 8] = ["PRINT UNDEF1", "ARR(3) = 1", "print \"lower\"", "GOTO 31999", "PRINT Q$", "Q(5) = Q2", "GOSUB 31998",
     "REM A LONG LINE TO TRIGGER THE LENGTH WARNING: PRINT \"0123456789012345678901234567890123456789\""];
@@ -348,7 +368,9 @@ fn valid_text_h(lang: Lang, rng: &mut Rng, hist: bool) -> String {
                 let stmt = if rng.chance(30) { if lang == Lang::Applesoft { *rng.pick(&AS_SENS) } else { *rng.pick(&IB_SENS) } }
                     else if lang == Lang::Applesoft { *rng.pick(&AS_STMTS) } else { *rng.pick(&IB_STMTS) };
                 let stmt = stmt.replace("FN F(", &format!("FN {}(", f)).replace("LONGV", v);
-                s.push_str(&format!("{} {}\n", ln, stmt));
+                // any statement may be followed by a remark on the same line
+                let rem = if rng.chance(12) && !stmt.contains("REM") && !stmt.contains("DATA") { ": REM NOTE" } else { "" };
+                s.push_str(&format!("{} {}{}\n", ln, stmt, rem));
                 ln += 10 * rng.range(1, 3);
             }
             // an earlier version may end inside a function definition (Applesoft keeps a DEF FN depth)
@@ -370,10 +392,20 @@ fn rand_unicode(rng: &mut Rng) -> char {
     char::from_u32(lo + rng.below((hi - lo + 1) as usize) as u32).unwrap_or('?')
 }
 
+const ODD_KINDS: usize = 18;
+
+/// Merlin pseudo-operations (with an operand that makes sense) and operands that do not
+const ME_PSOPS: [&str; 46] = ["ORG", "EQU", "=", "DS", "HEX", "ASC", "DCI", "INV", "FLS", "REV", "STR", "DFB", "DB", "DA", "DW", "DDB", "ADR", "ADRL", "LUP", "--^", "DO", "IF", "ELSE", "FIN",
+    "MAC", "<<<", "EOM", "PMC", ">>>", "PUT", "USE", "XC", "MX", "REL", "ENT", "EXT", "DUM", "DEND", "END", "LST", "TYP", "SAV", "DSK", "CHK", "ERR", "VAR"];
+const ME_ODD_OPERANDS: [&str; 28] = ["", ":X", ":X+1", "]V", "]1", "#", "#:X", ",", ";", "\"", "'", "\"AB", "'A", "GG", "0", "%2", "$", "$G", "(", ")", "<", "-:X", ":X-:Y", "*", "*-:X", "1;2", "X,", "OFF"];
+/// BASIC statements with missing or odd operands
+const BAS_ODD: [&str; 30] = ["PRINT ,", "GOTO", "GOSUB", "FOR", "FOR I", "FOR I =", "NEXT ,", "DIM", "DIM A(", "DEF FN", "DEF FN A", "DEF FN A(", "ON GOTO", "ON X GOSUB", "POKE", "POKE 1", "CALL",
+    "IF THEN", "IF A THEN", "LET =", "= 1", "DATA", "READ", "INPUT", "INPUT \"", "GET", "&", "HPLOT TO", "TAB(", "A$(1,"];
+
 /// broken / odd documents; `k` selects the kind
 fn odd_text(lang: Lang, k: usize, rng: &mut Rng) -> (String, &'static str) {
     let base = valid_text(lang, rng);
-    match k % 14 {
+    match k % ODD_KINDS {
         0 => { // random bytes as text (lossy utf-8)
             let n = rng.range(1, 400);
             (String::from_utf8_lossy(&rng.bytes(n)).to_string(), "random-bytes")
@@ -428,6 +460,59 @@ fn odd_text(lang: Lang, k: usize, rng: &mut Rng) -> (String, &'static str) {
         }
         12 => { // empty-ish
             ((*rng.pick(&["", "\n", " ", "\n\n\n", "\t", "\u{feff}", " \n \n"])).to_string(), "blank")
+        }
+        14 => { // local labels (and other scope-dependent operands) before any global label opens a scope
+            let s = match lang {
+                Lang::Merlin => {
+                    let ops = ["DO", "IF", "LUP", "EQU", "=", "DS", "ORG", "LDA", "BNE", "DA", "VAR", "JMP", "MX", "DFB", "ASC"];
+                    let args = [":X", ":X+1", "#:X", ":X-:Y", "<:X", "-:X", "*-:X", "(:X),Y", ":X,X", "]V+:X"];
+                    let mut s = String::new();
+                    for _ in 0..rng.range(1, 6) {
+                        let lab = *rng.pick(&["", "", ":L", "]V", ":X"]);
+                        s.push_str(&format!("{:<9}{:<6}{}\n", lab, *rng.pick(&ops), *rng.pick(&args)));
+                    }
+                    if rng.chance(50) { s.push_str("GLOBAL   LDA   :X\n:X       RTS\n"); }
+                    s
+                }
+                _ => { let mut s = String::new(); for i in 0..rng.range(1, 6) { s.push_str(&format!("{} NEXT I: RETURN: POP: {}\n", 10 * (i + 1), *rng.pick(&BAS_ODD))); } s }
+            };
+            (s, "no-scope-yet")
+        }
+        15 => { // macro arguments of length 0, 1, many; calls in every syntax
+            let s = match lang {
+                Lang::Merlin => {
+                    let mut s = String::from("M1       MAC\n         LDA   ]1\n         STA   ]2\n         LDX   #]3\n]LOOP    DEX\n         <<<\n");
+                    let args = ["", "1", "A", "#", "1;2", "A;B;C", ";", ";;", "X;", ";Y", "#1;#2;#3", "\"A\"", "'", "(1);2", "LONGNAME;B", "]1;]2", "1;2;3;4;5;6;7;8;9"];
+                    for _ in 0..rng.range(1, 7) {
+                        let a = *rng.pick(&args);
+                        s.push_str(&match rng.below(4) { 0 => format!("         M1    {}\n", a), 1 => format!("         PMC   M1,{}\n", a), 2 => format!("         >>>   M1.{}\n", a), _ => format!("         PMC   M1;{}\n", a) });
+                    }
+                    s
+                }
+                _ => { let mut s = String::from("10 DEF FN A(X) = X\n"); for i in 0..rng.range(1, 6) { s.push_str(&format!("{} PRINT FN A({}): {}\n", 20 + 10 * i, *rng.pick(&["", "1", "X", ",", "1,2", "("]), *rng.pick(&BAS_ODD))); } s }
+            };
+            (s, "macro-arguments")
+        }
+        16 => { // every pseudo-op / statement with missing or odd operands
+            let mut s = String::new();
+            for i in 0..rng.range(1, 8) {
+                match lang {
+                    Lang::Merlin => s.push_str(&format!("{:<9}{:<6}{}\n", *rng.pick(&["", "", "LBL", ":L", "]V"]), *rng.pick(&ME_PSOPS), *rng.pick(&ME_ODD_OPERANDS))),
+                    _ => s.push_str(&format!("{} {}\n", 10 * (i + 1), *rng.pick(&BAS_ODD))),
+                }
+            }
+            (s, "odd-operands")
+        }
+        17 => { // unterminated strings and delimiters in every string pseudo-op / statement
+            let mut s = String::new();
+            for i in 0..rng.range(1, 6) {
+                match lang {
+                    Lang::Merlin => s.push_str(&format!("         {:<6}{}\n", *rng.pick(&["ASC", "DCI", "INV", "FLS", "REV", "STR", "LDA", "CMP", "DFB", "PUT", "USE", "SAV", "TTL"]),
+                        *rng.pick(&["\"ABC", "'ABC", "\"", "'", "\"A\"B", "'A'B'", "#\"", "#'A", "\"A',00", "'A\",80", "\"\"\"", "/AB", "/AB/,", "\"A\",", "\"A\",GG"]))),
+                    _ => s.push_str(&format!("{} {}\n", 10 * (i + 1), *rng.pick(&["PRINT \"ABC", "A$ = \"", "PRINT \"A\";\"B", "INPUT \"X;A$", "DATA \"A,B", "REM \"", "PRINT \"\"\"", "IF A$ = \" THEN 10", "PRINT CHR$(34);\""]))),
+                }
+            }
+            (s, "unterminated-strings")
         }
         _ => { // deep nesting / repeated structure
             let n = rng.range(50, 3000);
@@ -515,6 +600,7 @@ fn gen_case(lang: Lang, idx: usize, rng: &mut Rng) -> Case {
     let mut steps: Vec<(u64, Act)> = Vec::new();
     let mut open = vec![false; ndocs];
     let mut next_ver = vec![0i64; ndocs];
+    let mut life = vec![0usize; ndocs];
     let mut all_vers: Vec<i64> = Vec::new();
     let mut ntexts = 0usize;
     let mut last_text_of_doc: Vec<Option<usize>> = vec![None; ndocs];
@@ -527,7 +613,10 @@ fn gen_case(lang: Lang, idx: usize, rng: &mut Rng) -> Case {
         ntexts += 1;
         last_text_of_doc[d] = Some(t);
         next_ver[d] += 1;
-        let ver = (d as i64 + 1) * 1000 + next_ver[d];
+        // a document that was closed and is opened again starts a new, LOWER range of version numbers
+        // (editors restart the counter; all versions of a case stay distinct)
+        if !open[d] && next_ver[d] > 1 { life[d] = (life[d] + 1).min(8); }
+        let ver = (d as i64 + 1) * 1000 + (8 - life[d] as i64) * 100 + next_ver[d];
         all_vers.push(ver);
         if !open[d] {
             steps.push((gap, Act::Open { d, ver, t }));
@@ -536,7 +625,7 @@ fn gen_case(lang: Lang, idx: usize, rng: &mut Rng) -> Case {
             steps.push((gap, Act::Change { d, ver, t }));
         }
         if rng.chance(25) { steps.push((*rng.pick(&gaps), Act::Req { kind: rng.below(5), d, line: rng.below(4), ch: rng.below(12) })); }
-        if rng.chance(7) && e + 1 < nedits + ndocs { steps.push((*rng.pick(&gaps), Act::Close { d })); open[d] = false; }
+        if rng.chance(10) && e + 1 < nedits + ndocs { steps.push((*rng.pick(&gaps), Act::Close { d })); open[d] = false; }
         if rng.chance(22) {
             // the answer arrives before / while / after the analysis of the edit just sent
             let cfg = rng.below(cfgs.len());
@@ -551,7 +640,7 @@ fn gen_case(lang: Lang, idx: usize, rng: &mut Rng) -> Case {
     let mut texts: Vec<String> = Vec::new();
     for t in 0..ntexts {
         let is_final = finals.contains(&t);
-        let txt = if rng.chance(25) { let k = 3 + rng.below(9); odd_text(lang, k, rng).0 } else { let h = !is_final && rng.chance(70); valid_text_h(lang, rng, h) };
+        let txt = if rng.chance(25) { let k = *rng.pick(&[3usize, 4, 5, 6, 7, 8, 9, 10, 11, 14, 15, 16, 17]); odd_text(lang, k, rng).0 } else { let h = !is_final && rng.chance(70); valid_text_h(lang, rng, h) };
         texts.push(tag_text(lang, t, txt));
     }
     // delay table: force out-of-order acquisition/completion
@@ -699,6 +788,12 @@ fn fixed_cases(lang: Lang, base: usize, rng: &mut Rng) -> Vec<Case> {
     let steps = vec![(0, Act::Open { d: 0, ver: 1001, t: 0 }), (0, Act::Open { d: 1, ver: 2001, t: 1 }), (400, Act::Config { cfg: 1 }), (250, Act::Change { d: 0, ver: 1002, t: 2 }),
         (0, Act::Close { d: 1 }), (30, Act::Open { d: 1, ver: 2002, t: 3 })];
     out.push(Case { lang, idx: base + 11, steps, texts, cfgs: vec!["{}".to_string(), pool[kk].to_string()], sched: vec![], initial_cfg: None, poison: false, burst: false, max_latency: None });
+    // (m) close and re-open with RESTARTED (lower) version numbers, as editors do: the re-opened document must
+    //     get its diagnostics although its versions are smaller than the ones seen before the close
+    let texts: Vec<String> = (0..6).map(|t| mk(t, rng)).collect();
+    let steps = vec![(0, Act::Open { d: 0, ver: 1705, t: 0 }), (30, Act::Change { d: 0, ver: 1706, t: 1 }), (30, Act::Change { d: 0, ver: 1707, t: 2 }), (150, Act::Close { d: 0 }),
+        (50, Act::Open { d: 0, ver: 1001, t: 3 }), (100, Act::Change { d: 0, ver: 1002, t: 4 }), (0, Act::Req { kind: 2, d: 0, line: 0, ch: 0 }), (100, Act::Change { d: 0, ver: 1003, t: 5 })];
+    out.push(Case { lang, idx: base + 14, steps, texts, cfgs: no_cfg(), sched: vec![], initial_cfg: None, poison: false, burst: false, max_latency: None });
     // ---- history ----
     // (l) every kind of earlier text (other versions of the document, another open document), analysed in and
     //     out of launch order, then the final texts; under the defaults and under one settings object
@@ -752,6 +847,9 @@ struct Obs {
     live_at_end: bool,
     /// an event line on stderr was cut up by other output
     garbled: bool,
+    /// jobs that obtained the analyzer and had not left it when the (generous) wait for quiescence ran out:
+    /// (job id, uri, version, ms since it got the analyzer)
+    hung: Vec<(usize, String, i64, u64)>,
     /// index (into `case.cfgs`) of the settings the client sent last (0 = never sent any)
     final_cfg: usize,
     /// per document: (last version sent, text id, diagnostics of a fresh single-document server that was
@@ -796,7 +894,7 @@ fn cfg_value(case: &Case, cfg: usize) -> json::JsonValue {
 fn run_case(bin_dir: &str, case: &Case, tag: &str) -> Obs {
     let _ = tag;
     let mut obs = Obs { started: false, hooks: false, alive_end: false, log: vec![], pubs: vec![], req_sent: vec![], req_answered: vec![],
-        probe_published: false, probe_request_answered: false, stderr: String::new(), live_at_end: true, garbled: false, final_cfg: 0, fresh: BTreeMap::new(), blocked: vec![] };
+        probe_published: false, probe_request_answered: false, stderr: String::new(), live_at_end: true, garbled: false, hung: vec![], final_cfg: 0, fresh: BTreeMap::new(), blocked: vec![] };
     let envs = vec![("A2KIT_VERIF_LOG".to_string(), "stderr".to_string()), ("A2KIT_VERIF_SCHED".to_string(), case.sched_string())];
     let mut c = match Client::spawn(&format!("{}/{}", bin_dir, case.lang.exe()), &envs) { Some(c) => c, None => return obs };
     if let Some(dir) = ws_dir(case.idx) {
@@ -852,7 +950,14 @@ fn run_case(bin_dir: &str, case: &Case, tag: &str) -> Obs {
             let done = last_sent.iter().all(|(d, v)| pubs.iter().any(|p| p.1 == uri_of(case.lang, case.idx, *d) && p.2 == Some(*v)));
             if done && t.elapsed().as_millis() > 250 { break; }
         }
-        if t.elapsed().as_millis() as u64 > budget { break; }
+        if t.elapsed().as_millis() as u64 > budget {
+            // who is still inside the analyzer?
+            let holding: Vec<usize> = log.iter().filter(|l| l.tag == "acquire" && !log.iter().any(|x| (x.tag == "finish" || x.tag == "die") && x.id == l.id)).map(|l| l.id).collect();
+            for id in holding {
+                if let Some(l) = log.iter().find(|l| l.tag.starts_with("launch") && l.id == id) { obs.hung.push((id, l.uri.clone(), l.ver, t.elapsed().as_millis() as u64)); }
+            }
+            break;
+        }
     }
     // outstanding requests
     for (id, _, _) in obs.req_sent.clone() { let _ = c.has_response(id, T_REQ); }
@@ -888,7 +993,7 @@ fn run_case(bin_dir: &str, case: &Case, tag: &str) -> Obs {
     let rid = send_request(&mut c, 0, &uri_of(case.lang, case.idx, 0), 0, 3);
     obs.probe_request_answered = c.has_response(rid, T_REQ);
     did_open(&mut c, &probe_uri, 77, probe_text);
-    obs.probe_published = c.wait_for(|ms| ms.iter().any(|(_, m)| m["method"] == "textDocument/publishDiagnostics" && m["params"]["uri"] == probe_uri.as_str()),
+    obs.probe_published = c.wait_for_or_panic(|ms| ms.iter().any(|(_, m)| m["method"] == "textDocument/publishDiagnostics" && m["params"]["uri"] == probe_uri.as_str()),
         if case.poison { 1200 } else { T_PUBLISH });
     obs.alive_end = c.alive();
     obs.stderr = without_log(&c.stderr_text());
@@ -913,11 +1018,26 @@ fn fresh_diags(bin_dir: &str, lang: Lang, uri: &str, text: &str, cfg: &str, ws: 
     if cfg != "{}" && !c.answer_config(0, json::parse(cfg).unwrap_or(json::object! {})) { c.shutdown(); return None; }
     did_open(&mut c, uri, 1, text);
     let u = uri.to_string();
-    let ok = c.wait_for(|ms| ms.iter().any(|(_, m)| m["method"] == "textDocument/publishDiagnostics" && m["params"]["uri"] == u.as_str()), T_PUBLISH);
+    let ok = c.wait_for_or_panic(|ms| ms.iter().any(|(_, m)| m["method"] == "textDocument/publishDiagnostics" && m["params"]["uri"] == u.as_str()), T_PUBLISH);
     let ans = if ok { c.publications().into_iter().filter(|p| p.1 == uri).last().map(|p| p.3) } else { None };
     c.shutdown();
     ans
 }
+
+/// `guarded(f)` on a thread of its own with a time limit: an analysis that does not come back (an endless
+/// loop in the analyzer is as silent a death as a panic: the thread never releases the shared analyzer) is
+/// reported as `Err("HANG …")`; the thread is left behind, the process ends anyway when the family is done.
+fn watchdog<T: Send + 'static>(limit_ms: u64, f: impl FnOnce() -> T + Send + 'static) -> Result<T, String> {
+    let (tx, rx) = std::sync::mpsc::channel();
+    let h = std::thread::Builder::new().stack_size(64 << 20).spawn(move || { let _ = tx.send(guarded(f)); });
+    if h.is_err() { return Err("HANG could not start the analysis thread".to_string()); }
+    match rx.recv_timeout(Duration::from_millis(limit_ms)) {
+        Ok(r) => r,
+        Err(_) => Err(format!("HANG analysis did not return within {} ms", limit_ms)),
+    }
+}
+fn hang_limit(len: usize) -> u64 { 30_000 + 20 * len as u64 }
+fn is_hang(e: &str) -> bool { e.starts_with("HANG") }
 
 /// Diagnostics as a JSON value, with the one hash-order dependent text made canonical: the Applesoft
 /// collision message lists the colliding names in `HashSet` iteration order, which differs from analysis
@@ -946,12 +1066,13 @@ fn inproc_diags(lang: Lang, cfg: &str, uri: &str, text: &str, ws: Option<String>
     let folders: Vec<lsp_types::Url> = ws.iter().filter_map(|w| lsp_types::Url::parse(w).ok()).collect();
     let url = match lsp_types::Url::parse(uri) { Ok(u) => a2kit::lang::normalize_client_uri(u), Err(e) => return Err(format!("bad uri {}", e)) };
     let doc = a2kit::lang::Document { uri: url, version: Some(1), text: text.to_string() };
-    guarded(|| match lang {
-        Lang::Applesoft => { let mut a = a2kit::lang::applesoft::diagnostics::Analyzer::new(); let _ = a.update_config(cfg);
+    let cfg = cfg.to_string();
+    watchdog(hang_limit(text.len()), move || match lang {
+        Lang::Applesoft => { let mut a = a2kit::lang::applesoft::diagnostics::Analyzer::new(); let _ = a.update_config(&cfg);
             match a.analyze(&doc) { Ok(()) => serde_json::to_value(a.get_diags(&doc)).ok().map(canon_diags), Err(_) => None } }
-        Lang::Integer => { let mut a = a2kit::lang::integer::diagnostics::Analyzer::new(); let _ = a.update_config(cfg);
+        Lang::Integer => { let mut a = a2kit::lang::integer::diagnostics::Analyzer::new(); let _ = a.update_config(&cfg);
             match a.analyze(&doc) { Ok(()) => serde_json::to_value(a.get_diags(&doc)).ok().map(canon_diags), Err(_) => None } }
-        Lang::Merlin => { let mut a = a2kit::lang::merlin::diagnostics::Analyzer::new(); let _ = a.update_config(cfg);
+        Lang::Merlin => { let mut a = a2kit::lang::merlin::diagnostics::Analyzer::new(); let _ = a.update_config(&cfg);
             // what the server does at start-up and in the analysis thread of a `didOpen`
             if !folders.is_empty() { let _ = a.init_workspace(folders.clone(), Vec::new()); }
             let _ = a.rescan_workspace_and_update(vec![doc.clone()]);
@@ -966,7 +1087,10 @@ fn inproc_history(lang: Lang, cfg: &str, seq: &[(String, String)], ws: Option<St
     let folders: Vec<lsp_types::Url> = ws.iter().filter_map(|w| lsp_types::Url::parse(w).ok()).collect();
     let docs: Vec<a2kit::lang::Document> = seq.iter().filter_map(|(u, t)| lsp_types::Url::parse(u).ok().map(|u| a2kit::lang::Document { uri: a2kit::lang::normalize_client_uri(u), version: Some(1), text: t.clone() })).collect();
     if docs.len() != seq.len() || docs.is_empty() { return None; }
-    guarded(|| {
+    let cfg = cfg.to_string();
+    let total: usize = docs.iter().map(|d| d.text.len()).sum();
+    watchdog(hang_limit(total), move || {
+        let cfg = cfg.as_str();
         let mut last = None;
         match lang {
             Lang::Applesoft => { let mut a = a2kit::lang::applesoft::diagnostics::Analyzer::new(); let _ = a.update_config(cfg);
@@ -987,11 +1111,18 @@ fn inproc_history(lang: Lang, cfg: &str, seq: &[(String, String)], ws: Option<St
 }
 
 /// memo of `inproc_diags` per (text id, settings id) of one case
-struct Fresh<'a> { case: &'a Case, memo: HashMap<(usize, usize), Result<Option<serde_json::Value>, String>> }
+struct Fresh<'a> { case: &'a Case, memo: HashMap<(usize, usize), Result<Option<serde_json::Value>, String>>, hung: HashMap<usize, String> }
 impl<'a> Fresh<'a> {
-    fn new(case: &'a Case) -> Self { Fresh { case, memo: HashMap::new() } }
+    fn new(case: &'a Case) -> Self { Fresh { case, memo: HashMap::new(), hung: HashMap::new() } }
     fn get(&mut self, d: usize, t: usize, cfg: usize) -> Result<Option<serde_json::Value>, String> {
         let case = self.case;
+        // a text on which the analysis did not return is not tried again under other settings
+        if let Some(e) = self.hung.get(&t) { return Err(e.clone()); }
+        if !self.memo.contains_key(&(t, cfg)) {
+            let r = inproc_diags(case.lang, &case.cfgs[cfg], &uri_of(case.lang, case.idx, d), &case.texts[t], ws_folder_uri(case.idx));
+            if let Err(e) = &r { if is_hang(e) { self.hung.insert(t, e.clone()); } }
+            self.memo.insert((t, cfg), r);
+        }
         self.memo.entry((t, cfg)).or_insert_with(|| inproc_diags(case.lang, &case.cfgs[cfg], &uri_of(case.lang, case.idx, d), &case.texts[t], ws_folder_uri(case.idx))).clone()
     }
     /// settings ids under which a new analyzer reproduces `published` from text `t` alone
@@ -1238,7 +1369,14 @@ fn judge_case(case: &Case, obs: &Obs) -> Rep {
     for d in 0..ndocs {
         let u = uri_of(case.lang, case.idx, d);
         let vs: Vec<i64> = obs.pubs.iter().filter(|p| p.1 == u).map(|p| p.2.unwrap_or(-1)).collect();
-        if vs.windows(2).any(|w| w[1] < w[0]) { order_ok = false; }
+        // "in version order" = in the order in which the client sent the versions (a re-opened document may
+        // restart its numbering): the published versions, without repetitions, are a subsequence of the sent ones
+        let sent_vs: Vec<i64> = case.steps.iter().filter_map(|(_, a)| match a { Act::Open { d: dd, ver, .. } | Act::Change { d: dd, ver, .. } if *dd == d => Some(*ver), _ => None }).collect();
+        let mut pos = 0usize;
+        for v in &vs {
+            if pos > 0 && sent_vs[pos - 1] == *v { continue; }       // the same version again (configuration re-analysis)
+            match sent_vs.iter().skip(pos).position(|x| x == v) { Some(k) => pos += k + 1, None => { order_ok = false; break; } }
+        }
         if obs.pubs.iter().any(|p| p.1 == u && p.2.is_none()) { order_ok = false; }
     }
     out.oracle(order_ok, "versions-in-order", &format!("c18/{}/version-order", srv), &desc);
@@ -1282,6 +1420,20 @@ fn judge_case(case: &Case, obs: &Obs) -> Rep {
             else if c.len() < case.cfgs.len() { out.count("publication:settings-distinguishable"); }
         }
         obs_k.push(k);
+    }
+    // an analysis that never returns keeps the shared analyzer for good: every later analysis blocks, nothing
+    // is published any more, silently.  Seen as a job that got the analyzer and had not left it when the
+    // generous wait for quiescence ran out; definitive (not re-run) if a NEW analyzer in this process does not
+    // return on that job's text either.
+    if obs.hung.is_empty() { out.oracle(true, "analysis-finishes", "-", &format!("idx={}", case.idx)); }
+    else {
+        let mut confirmed = false;
+        for (_, uri, ver, _) in &obs.hung {
+            if let Some(d) = uri_idx(uri) { let t = text_of_version(&sent, d, *ver); if t != 99999 { if let Err(e) = fresh.get(d, t, 0) { if is_hang(&e) { confirmed = true; } } } }
+        }
+        let txt = format!("{} jobs-still-holding-the-analyzer(id,uri,version,ms)={:?} requests-still-answered={} library-analysis-of-that-text-hangs-too={}", desc, obs.hung, obs.probe_request_answered, confirmed);
+        if confirmed { out.oracle(false, "analysis-finishes", &format!("c18/{}/analysis-never-finishes", srv), &txt); }
+        else { out.oracle_t(false, "analysis-finishes", &format!("c18/{}/analysis-never-finishes", srv), &txt); }
     }
     if !dead_analyzer {
         // still publishes for a new edit
@@ -1335,7 +1487,8 @@ fn judge_case(case: &Case, obs: &Obs) -> Rep {
                                     p.3.chars().take(400).collect::<String>(), want.to_string().chars().take(400).collect::<String>()));
                         }
                         Ok(None) => out.count("fresh:library-analysis-returned-err-but-server-published"),
-                        Err(e) => out.oracle(false, "equals-fresh-analysis", &format!("panic:{}", panic_site(&e).split(':').next().unwrap_or("?")), &format!("{} doc={} panic={}", desc, d, e.chars().take(200).collect::<String>())),
+                        Err(e) if is_hang(&e) => out.oracle(false, "equals-fresh-analysis", &format!("c18/{}/analysis-never-finishes", srv), &format!("{} doc={} {}", desc, d, e)),
+                        Err(e) => out.oracle(false, "equals-fresh-analysis", &inproc_panic_sig(&e), &format!("{} doc={} panic={}", desc, d, e.chars().take(200).collect::<String>())),
                     }
                     match fresh_srv.clone() {
                         _ if !is_open => {}
@@ -1392,7 +1545,7 @@ const ERROR_ALL: &str = r#"{"flag":{"caseSensitive":"error","terminalString":"er
 fn analyze_in_process(lang: Lang, text: &str, cfg: usize) -> Result<bool, String> {
     let doc = a2kit::lang::Document::from_string(text.to_string(), 1);
     let json = match cfg % 3 { 1 => Some(IGNORE_ALL), 2 => Some(ERROR_ALL), _ => None };
-    let r = guarded(|| match lang {
+    let r = watchdog(hang_limit(text.len()), move || match lang {
         Lang::Applesoft => { let mut a = a2kit::lang::applesoft::diagnostics::Analyzer::new(); if let Some(j) = json { let _ = a.update_config(j); } let r = a.analyze(&doc).is_ok(); let _ = a.get_diags(&doc); r }
         Lang::Integer => { let mut a = a2kit::lang::integer::diagnostics::Analyzer::new(); if let Some(j) = json { let _ = a.update_config(j); } let r = a.analyze(&doc).is_ok(); let _ = a.get_diags(&doc); r }
         Lang::Merlin => { let mut a = a2kit::lang::merlin::diagnostics::Analyzer::new(); if let Some(j) = json { let _ = a.update_config(j); } let r = a.analyze(&doc).is_ok(); let _ = a.get_diags(&doc); r }
@@ -1421,7 +1574,8 @@ fn run_odd_chunk(bin_dir: &str, lang: Lang, docs: &[(usize, String, &'static str
         for k in 0..5 { ids.push(send_request(c, k, &uri, (idx + k) % nlines, (idx * 7 + k) % 20)); }
         let u = uri.clone();
         let budget = T_PUBLISH + 4 * text.len() as u64;
-        let published = c.wait_for(|ms| ms.iter().any(|(_, m)| m["method"] == "textDocument/publishDiagnostics" && m["params"]["uri"] == u.as_str()), budget);
+        // (a panic message on stderr ends the wait: nothing will be published any more)
+        let published = c.wait_for_or_panic(|ms| ms.iter().any(|(_, m)| m["method"] == "textDocument/publishDiagnostics" && m["params"]["uri"] == u.as_str()), budget);
         let mut answered = true;
         let t_req = Instant::now();
         for id in ids {
@@ -1528,7 +1682,7 @@ pub fn run(ctx: &mut Ctx) {
             for cfg in 1..3 {
                 if (k + cfg) % 4 != 0 && !ctx.tier_thorough { continue; }
                 if let Err(p) = analyze_in_process(lang, &text, cfg) {
-                    ctx.out.oracle(false, "odd-document-analysed-under-settings", &format!("panic:{}", panic_site(&p).split(':').next().unwrap_or("?")),
+                    ctx.out.oracle(false, "odd-document-analysed-under-settings", &inproc_panic_sig(&p),
                         &format!("idx={} srv={} kind={} settings={} panic={}", idx, lang.name(), kind, if cfg == 1 { "ignore-all" } else { "error-all" }, p.chars().take(200).collect::<String>()));
                 } else { ctx.out.count("odd-inproc:settings-variant-ok"); }
             }
@@ -1537,9 +1691,15 @@ pub fn run(ctx: &mut Ctx) {
             match &inproc {
                 Ok(true) => {}
                 Ok(false) => ctx.out.count("odd-inproc:analyze-returned-err"),
+                Err(e) if is_hang(e) => {
+                    ctx.out.count("odd-inproc:hang");
+                    ctx.out.oracle(false, "analysis-terminates", &format!("c18/{}/analysis-never-finishes", lang.name()),
+                        &format!("idx={} srv={} kind={} len={} {} text={}", idx, lang.name(), kind, text.len(), e, text.escape_debug().to_string().chars().take(300).collect::<String>()));
+                }
                 Err(_) => ctx.out.count("odd-inproc:panic"),
             }
             let interesting = !matches!(inproc, Ok(true));
+            if interesting && std::env::var("C18_SHOW_TEXT").is_ok() { eprintln!("c18: odd idx={} {} {:?}\n{}", idx, lang.name(), inproc.as_ref().map_err(|e| panic_site(e)), text.escape_debug()); }
             if interesting { if suspicious.len() < 12 { suspicious.push((idx, text, kind, inproc)); } }
             else if docs.len() < n_odd && (k < n_odd || ctx.out.only.is_some()) { docs.push((idx, text, kind, inproc)); }
             else { ctx.out.case(format!("odd|{}|{}", lang.name(), idx).as_bytes(), true); }
@@ -1559,7 +1719,7 @@ pub fn run(ctx: &mut Ctx) {
         // alone on a fresh server, up to two more times
         for r in all.iter_mut() {
             let mut tries = 0;
-            while !(r.published && r.answered) && r.alive && panic_sig(&r.stderr).is_none() && tries < 2 {
+            while !(r.published && r.answered) && r.alive && panic_sig(&r.stderr).is_none() && tries < 2 && !matches!(&r.inproc, Err(e) if is_hang(e)) {
                 tries += 1;
                 ctx.out.count("retry:odd-document-rerun");
                 if let Some(d) = suspicious.iter().find(|d| d.0 == r.idx) {
@@ -1575,7 +1735,8 @@ pub fn run(ctx: &mut Ctx) {
                 r.inproc.as_ref().map_err(|e| panic_site(e)), r.stderr.chars().take(240).collect::<String>());
             let psig = panic_sig(&r.stderr);
             let ok = r.published && r.answered && r.alive;
-            let sig = if ok { "-".to_string() } else if let Some(p) = psig { p } else if !r.alive { format!("c18/{}/server-died", srv) }
+            let sig = if ok { "-".to_string() } else if let Some(p) = psig { p } else if matches!(&r.inproc, Err(e) if is_hang(e)) { format!("c18/{}/analysis-never-finishes", srv) }
+                else if !r.alive { format!("c18/{}/server-died", srv) }
                 else if !r.published { format!("c18/{}/no-diagnostics-for-document", srv) } else { format!("c18/{}/request-unanswered", srv) };
             ctx.out.oracle(ok, "odd-document-served", &sig, &case);
             ctx.out.count("odd:sent-to-server");
